@@ -12,6 +12,8 @@ identical source on recursive (type, repr):
         and every unary operator over the set (folds that must raise at run time included).
  lit    integer literals: boundary values x {dec, underscores, hex, HEX, 0x00.., 0x_.., 0o, 0O, 0b, 0B, 0b_} x sign,
         each as Python object (return LIT) and as C operand (x + LIT); float/complex/bool/None spellings.
+ nested (part of pool) outer tuples / slices / frozensets that differ only in the repeat count k in {1, 2, 3} of a nested constant
+        tuple ((0,), (0.0,), (1, 2.0), ()) in 11 outer forms, all variants in one module, both orders.
  numtab one module per non-empty subset of the six numeric-constant storage classes (int8/16/32/64 arrays,
         base-32 string, double array) of Code.generate_num_constants.
 """
@@ -110,6 +112,30 @@ def pool_mods(tier, per=230):
                 continue        # quick: reverse order only for the k <= 2 classes; thorough: every class in both orders
             mods.append(e2.Mod('c09pool%s_%d' % (order, ci), POOL_PRELUDE, ps, {'none': [()]}, ext='.py'))
     return mods, len(units)
+
+
+NM_INNERS = ['(0,)', '(0.0,)', '(1, 2.0)', '()']
+NM_FORMS = [('left', '(%s, 7)'), ('right', ("('k', %s)")), ('wrap', '((%s,),)'), ('deep', '((%s, 7), 8)'), ('both', '(%s, 7) * 2'),
+            ('pair', '(%s, %s)'), ('slice3', '_I[%s:7:1]'), ('slice3b', '_I[1:%s:2]'), ('slice2', '_I[%s:]'), ('fset', 'frozenset((%s, 7))'),
+            ('fset1', 'frozenset((%s,))')]
+
+
+def nestedmult_mods():
+    """Outer constants that differ ONLY in the repeat count of a nested constant tuple: (<inner> * k, x), (x, <inner> * k),
+    ((<inner> * k,),), deeper nesting, multiplication on both levels, slice bounds and frozenset items, for every inner in
+    NM_INNERS and k in {1, 2, 3} (k = 1 written without '*').  All repeat-count variants of every (form, inner) sit in the same
+    module, once in forward and once in reverse order."""
+    parts = []
+    n = 0
+    for fname, tmpl in NM_FORMS:
+        for inner in NM_INNERS:
+            for k in (1, 2, 3):
+                ik = inner if k == 1 else '%s * %d' % (inner, k)
+                body = tmpl % ((ik,) * tmpl.count('%s'))
+                name = 'n%d' % n
+                n += 1
+                parts.append(e2.Part('def %s():\n    return %s\n' % (name, body), [e2.Func(name, 'pool/N%s' % fname, 'none')]))
+    return [e2.Mod('c09nm%s' % order, POOL_PRELUDE, ps, {'none': [()]}, ext='.py') for order, ps in (('f', parts), ('r', parts[::-1]))]
 
 
 def slicetuple_mods():
@@ -285,7 +311,8 @@ def keyfn(tag, inp, exp, got):
         d = e2.divclass(exp, got)
         if d in ('value',) or d.startswith('type:'):
             d = g4.confusion(exp[1], got[1])
-        return 'pool|%s|%s' % (tag.split('/')[1], d)
+        form = tag.split('/')[1]
+        return 'pool|%s|%s' % ('N' if form.startswith('N') else form, d)
     if tag == 'lit/floattuple' and e2.divclass(exp, got) == 'value':
         return 'lit|floattuple|%s' % g4.confusion(exp[1], got[1])
     if fam == 'numtab':
@@ -315,7 +342,9 @@ def build_mods(tier):
     nt = numtab_mods()
     mods += nt
     mods += slicetuple_mods()
-    return mods, {'pool_tuples': ntuples, 'fold_programs': len(fp), 'literal_programs': len(lp), 'numtab_modules': len(nt)}
+    nm = nestedmult_mods()
+    mods += nm
+    return mods, {'pool_tuples': ntuples, 'fold_programs': len(fp), 'literal_programs': len(lp), 'numtab_modules': len(nt), 'nested_multiplication_programs': len(nm[0].parts)}
 
 
 def _ref_outcomes(mods):
